@@ -134,6 +134,13 @@ impl<'a> PacketReader<'a> {
     }
 }
 
+#[cfg(minimq_verif)]
+impl PacketReader<'_> {
+    pub(crate) fn verif_progress(&self) -> (usize, Option<usize>) {
+        (self.read_bytes, self.packet_length)
+    }
+}
+
 #[cfg(test)]
 mod test {
     use super::PacketReader;
